@@ -212,6 +212,24 @@ func (b *docBuilder) spaceList(name string, items []string) {
 	b.line(name + ": " + strings.Join(items, " "))
 }
 
+// spaceListFolded renders "a b c" or folded "a b\n c" (what dpkg-genchanges does to a
+// long Binary field); foldMask bit i folds after item i.
+func (b *docBuilder) spaceListFolded(name string, items []string, foldMask int) {
+	var sb strings.Builder
+	for i, it := range items {
+		if i > 0 {
+			if foldMask&(1<<uint(i-1)) != 0 {
+				sb.WriteString("\n ")
+				b.feats["folded-space-list"] = true
+			} else {
+				sb.WriteString(" ")
+			}
+		}
+		sb.WriteString(it)
+	}
+	b.line(name + ": " + sb.String())
+}
+
 // multi renders "Name: first" + continuation lines (empty ones as " .").
 func (b *docBuilder) multi(name, first string, rest []string) string {
 	b.line(strings.TrimRight(name+": "+first, " "))
